@@ -483,6 +483,50 @@ def check_ring(fx, R, rq):
             if len([o for o in c.ops if o[0] in ('store', 'push')]) != 1:
                 ok, why = False, 'append performs %s, expected exactly one push_back or one element store' % (c.ops,)
     R.check(ok, 'S5', '%s::append:advance' % base, why + ' [%s]' % cname, 'ringIndex_ <- (ringIndex_+1) mod ringSize_; store at the new index [%s]' % cname, fx.rel(fa['loc']), 'E-STATE')
+    # append: WHICH of the two it does.  While the buffer holds fewer items than its capacity the item must be pushed (the element does not exist yet); once it is full it must overwrite, never grow.
+    # Every path of append() is placed, by its own conditions, on witness (items held, capacity) pairs
+    sizeS = [y_ for st in steps for c_ in st.cond if isinstance(c_[1], sp.Basic) for y_ in c_[1].free_symbols if y_.name == 'size(this.ring_)']
+    badg = undg = None
+    n_g = 0
+    for (held, capv) in ((0, 4), (2, 4), (3, 4), (4, 4), (0, 1), (1, 1), (5, 7), (7, 7)):
+        taken = []
+        for st in steps:
+            feas = True
+            for c_ in st.cond:
+                if c_[0] in ('True', 'False') or not isinstance(c_[1], sp.Basic):
+                    continue
+                v_ = c_[1].subs({y_: (held if y_.name == 'size(this.ring_)' else capv if y_.name == 'this.ringSize_' else (held - 1) % capv if y_.name == 'this.ringIndex_' else y_) for y_ in c_[1].free_symbols})
+                v_ = sp.simplify(v_)
+                if v_ not in (sp.true, sp.false):
+                    feas = None
+                    break
+                if bool(v_) != c_[2]:
+                    feas = False
+                    break
+            if feas is None:
+                undg = undg or 'a path condition of append() is not decided by (items held, capacity): %s' % [c_[0] for c_ in st.cond]
+            elif feas:
+                taken.append(st)
+        if undg:
+            break
+        if len(taken) != 1:
+            undg = '%d paths of append() are taken with %d items held of capacity %d' % (len(taken), held, capv)
+            break
+        c = taken[0].fields.get(('this', 'ring_'))
+        ops_ = [o[0] for o in c.ops if o[0] in ('store', 'push')] if isinstance(c, sym.Cont) else []
+        want_op = 'push' if held < capv else 'store'
+        n_g += 1
+        if ops_ != [want_op]:
+            badg = badg or (held, capv, ops_, want_op)
+    if badg:
+        R.violated('S5', '%s::append:grow-or-overwrite' % base, 'with %d item(s) held in a ring of capacity %d append() performs %s; it must %s: %s [%s]' % (
+            badg[0], badg[1], badg[2] or 'no store', 'push the item (the element at the advanced index does not exist yet)' if badg[3] == 'push' else 'overwrite the oldest element, not grow',
+            'an element store beyond the end of the vector is undefined behaviour; the ring never holds min(n, W) items' if badg[3] == 'push' else 'the ring would hold more than W items and the k-th entry is no longer the '
+            'k-th most recent', cname), fx.rel(fa['loc']), 'E-STEP')
+    elif undg:
+        R.undecided('S5', '%s::append:grow-or-overwrite' % base, undg)
+    else:
+        R.holds('S5', '%s::append:grow-or-overwrite' % base, 'pushes while fewer than W items are held and overwrites once full, on %d (held, capacity) witnesses [%s]' % (n_g, cname), fx.rel(fa['loc']), 'E-STEP')
     # operator[](n): index congruent to ringIndex_ - n modulo the size
     ok, why = (len(reads) == 1), 'operator[] has %d paths' % len(reads)
     if ok:
